@@ -1,6 +1,8 @@
 /-
 Model driver for C05. Line protocol (grammar in harness/overlay/services/keep-balance/zz_verif_c05_test.go):
   bb <hash32> <minMtime> <services> <replicas> <desired>
+  cs <minMtime> <order> <services> <blocks>
+  gs <flags> <M> <defrepl> <pagesize> <secs> <services> <blocks> <colls>   (zz_verif_c05_run_test.go)
 Output:
   classes=<bal.classes> mounts=<si.mi:ro:repl | si.mi:x>,... # <outcome> # <outcome> ...
 one outcome per distinct result over all choices the unstable sort may make among slots that
@@ -14,6 +16,7 @@ import ArvVerif.Model.C12
 import ArvVerif.Model.C05
 import ArvVerif.Model.C05_Enum
 import ArvVerif.Model.C05_BlockState
+import ArvVerif.Model.C05_Run
 open ArvVerif ArvVerif.C05
 
 namespace C05Driver
@@ -251,6 +254,126 @@ def parseServices? (svcS : String) : Option (List PService) := do
   if (svcs.map (·.uuid)).eraseDups.length != svcs.length then none
   some svcs
 
+/-! ### op gs: one sweep of Balancer.Run (Model/C05_Run.lean) -/
+
+/-- `^[0-9]{7,10}$` -/
+def parseNat10? (s : String) : Option Nat :=
+  let ds := s.toList
+  if ds.length < 7 || ds.length > 10 || !ds.all Char.isDigit then none else some (digitsToNat ds)
+
+/-- `^-?[0-9]{1,6}$`, not within [0, 3600) -/
+def parseOff? (s : String) : Option Int := do
+  let cs := s.toList
+  let ds := match cs with | '-' :: r => r | _ => cs
+  if ds.length > 6 then none
+  let v ← parseInt? s
+  if 0 ≤ v && v < 3600 then none
+  some v
+
+structure PGColl where
+  pdh : Nat
+  repl : Option Nat
+  classes : List String
+  blocks : List Nat
+
+def parseGColl? (nblk : Nat) (s : String) : Option PGColl :=
+  match s.splitOn "*" with
+  | [a, b, c, d] => do
+    let pdh ← parseNat? a
+    let repl ← if b == "d" then some none else (parseNat? b).map some
+    let classes ← if c == "-" then some [] else (c.splitOn "+").mapM (parseClass? · false)
+    let blocks ← if d == "-" then some [] else (d.splitOn "+").mapM parseNat?
+    if blocks.any (· ≥ nblk) then none
+    some { pdh, repl, classes, blocks }
+  | _ => none
+
+def parseGRep? (svcA : Array PService) (x : String) : Option (Nat × Nat × Int) :=
+  match x.splitOn "@" with
+  | [ix, o] => do
+    let off ← parseOff? o
+    let (si, mi, _) ← parseReplica? svcA (ix ++ "@0")
+    some (si, mi, off)
+  | _ => none
+
+def parseGBlock? (svcA : Array PService) (s : String) : Option (String × List (Nat × Nat × Int)) :=
+  match s.splitOn ":" with
+  | [h, r] => do
+    if h.length != 32 || !h.toList.all isHexLower then none
+    let reps ← if r == "-" then some [] else (r.splitOn ",").mapM (parseGRep? svcA)
+    some (h, reps)
+  | _ => none
+
+/-- a timestamp as the Go driver prints it: seconds relative to M when it is a whole number of
+seconds, else the raw number -/
+def showMt (m : Int) (t : Int) : String :=
+  if t % 1000000000 == 0 && t / 1000000000 - m > -100000000 && t / 1000000000 - m < 100000000
+  then toString (t / 1000000000 - m) else "\"r" ++ toString t ++ "\""
+
+def runGS (flags : String) (m : Nat) (defRepl : Nat) (secs : List Bool) (svcs : List PService)
+    (blocks : List (String × List (Nat × Nat × Int))) (colls : List PGColl) : Option String := do
+  let fl := flags.toList
+  let cfg : RunCfg := { commitPulls := fl[0]! == '1', commitTrash := fl[1]! == '1', safeState := fl[2]! == '1',
+                        defRepl := defRepl, minMtime := (Int.ofNat m) * nsPerSecond, selClasses := selClassesNow }
+  let svcA := svcs.toArray
+  -- the world: a device is one store; a mount's index lists what the case gives for any view of its device
+  let mountPos := (svcs.zipIdx.flatMap fun (s, si) => s.mounts.zipIdx.map fun (_, mi) => (si, mi)).toArray
+  let idOf := fun (si mi : Nat) => (mountPos.findIdx? (· == (si, mi))).getD 0
+  let devOfPos := fun (si mi : Nat) => (svcA[si]!.mounts[mi]!).dev
+  let sameStore := fun (a b : Nat × Nat) => a == b || (devOfPos a.1 a.2 != "" && devOfPos a.1 a.2 == devOfPos b.1 b.2)
+  let idx : Nat → List IdxEntry := fun id =>
+    let pos := mountPos[id]!
+    blocks.zipIdx.flatMap fun ((_, reps), bi) =>
+      reps.filterMap fun (si, mi, off) =>
+        if sameStore (si, mi) pos then
+          let t : Int := Int.ofNat m + off
+          some { blk := bi, raw := if secs[pos.1]! then t else t * nsPerSecond }
+        else none
+  -- the cleaned-up layout (class codes are irrelevant here)
+  let raw : List RawService := svcs.zipIdx.map fun (s, si) =>
+    { id := si, ro := s.ro,
+      mounts := s.mounts.zipIdx.map fun (mt, mi) =>
+        { id := idOf si mi, dev := if mt.dev == "" then 0 else 1 + (mountPos.toList.findIdx fun p => devOfPos p.1 p.2 == mt.dev),
+          ro := mt.ro, repl := mt.repl, classes := [] } }
+  let kept := effMounts 0 (cleanupMounts raw)
+  -- class codes for the gathering model
+  let names := ("default" :: colls.flatMap (·.classes)).eraseDups.toArray
+  let codeOf := fun (n : String) => (names.findIdx? (· == n)).getD 0
+  let mcolls : List Coll := colls.map fun c => { pdh := c.pdh, repl := c.repl, classes := c.classes.map codeOf, blocks := c.blocks }
+  let states : List (Option BlockSt) := blocks.zipIdx.map fun (_, bi) =>
+    let ops := blockOps cfg.selClasses cfg.defRepl idx id kept mcolls bi
+    if ops.isEmpty then none else some (gather (codeOf "default") ops)
+  let err := sanityLate cfg colls.length (states.filterMap id)
+  let sent := fun (commit : Bool) => match sentList commit err [()] with
+    | some _ => if svcs.isEmpty then "none" else "same"
+    | none => "none"
+  let tail := s!"sent=T:{sent cfg.commitTrash},P:{sent cfg.commitPulls} clear={clearCount cfg svcs.length}"
+  match err with
+  | some .zeroCollections => some ("err received-zero # " ++ tail)
+  | some .zeroDesired => some ("err zero-blocks # " ++ tail)
+  | some .defaultRepl => some ("err Default-replication # " ++ tail)
+  | none =>
+    let results : List (Except String (String × List String)) := (blocks.zip states).map fun ((h, _), st) =>
+      match st with
+      | none => Except.ok ("", ["absent"])
+      | some bs =>
+        let des := bs.desired.map fun (c, n) => (names[c]!, n)
+        let greps := bs.replicas.map fun r => (mountPos[r.mnt]!.1, mountPos[r.mnt]!.2, r.mtime)
+        let refs := ((lostRefs bs).map (fun p => "pdh" ++ toString p)).toArray.qsort (· < ·) |>.toList
+        match runBlock h cfg.minMtime svcs greps des true with
+        | Except.error e => Except.error e
+        | Except.ok (pre, outs) => Except.ok (pre, outs.map fun o =>
+            let o := (bs.replicas.map (·.mtime)).eraseDups.foldl (fun (o : String) t =>
+              o.replace ("\"block_mtime\":" ++ toString t ++ ",") ("\"block_mtime\":" ++ showMt (Int.ofNat m) t ++ ",")) o
+            o ++ " refs=" ++ (if o.startsWith "lost=1" then dash refs "," else "-"))
+    match results.find? (fun r => match r with | Except.error _ => true | Except.ok _ => false) with
+    | some (Except.error e) => some e
+    | _ =>
+      let oks := results.filterMap fun r => match r with | Except.ok x => some x | Except.error _ => none
+      match runBlock "00000000000000000000000000000000" cfg.minMtime svcs [] [] true with
+      | .error e => some e
+      | .ok (pre, _) => some (pre ++ " # " ++ " ~ ".intercalate (oks.map fun (_, outs) => " | ".intercalate outs) ++
+          " # " ++ tail ++ " minmtime=ok")
+
 def step (line : String) : String :=
   match fields line with
   | ["bb", hash, minS, svcS, repS, desS] =>
@@ -297,6 +420,25 @@ def step (line : String) : String :=
         match runBlock "00000000000000000000000000000000" minM svcs [] [] true with
         | .error e => some e
         | .ok (pre, _) => some (pre ++ " # " ++ " ~ ".intercalate (oks.map fun (_, outs) => " | ".intercalate outs))
+    r.getD "bad-op"
+  | ["gs", flags, mS, drS, psS, secS, svcS, blkS, collS] =>
+    let r : Option String := do
+      if flags.length != 3 || !flags.toList.all (fun c => c == '0' || c == '1') then none
+      let m ← parseNat10? mS
+      if m < 1000000 || m > 4000000000 then none
+      let defRepl ← parseNat? drS
+      let pageSize ← parseNat? psS
+      if defRepl > 9 || pageSize > 9 then none
+      if blkS.isEmpty then none
+      let svcs ← parseServices? svcS
+      let secs ← if secS == "-" then (if svcs.isEmpty then some [] else none)
+        else if secS.length != svcs.length || !secS.toList.all (fun c => c == '0' || c == '1') then none
+        else some (secS.toList.map (· == '1'))
+      let svcA := svcs.toArray
+      let blocks ← (blkS.splitOn "~").mapM (parseGBlock? svcA)
+      if (blocks.map (·.1)).eraseDups.length != blocks.length then none
+      let colls ← if collS == "-" then some [] else (collS.splitOn "&").mapM (parseGColl? blocks.length)
+      runGS flags m defRepl secs svcs blocks colls
     r.getD "bad-op"
   | _ => "bad-op"
 
